@@ -26,7 +26,16 @@ LEVEL_TEXT = ('Coq theorems over an executable Gallina model of schedule.Schedul
               'every executed or pending entry carries the arguments it was registered with, also across rescheduleEvent (full statement since the fix of C18.F17). '
               'The model is tied to the source by a fail-closed AST table and a differential run against the real Schedule on every check.')
 LEVEL_NOTE = ('Trusted: Coq kernel, gen_tables.py, extraction + OCaml driver, the Python harness; heapq enters as an oracle whose contract '
-              '(pop returns a minimal-time entry) is checked on every differential case; Lock/threads not modelled; Python code is modelled, not verified.')
+              '(pop returns a minimal-time entry) is checked on every differential case; Python code is modelled, not verified. '
+              'NOT modelled (gap audit): threading.Lock / calls from other threads; run() called from inside an event; event functions raising '
+              'BaseException that is not Exception (SystemExit escapes run(), and the bare except of drivers.run() then drops the Schedule driver); '
+              'due times that are not numbers (float NaN starves the loop: finding C18.F26; the model has integer times); Schedule.reset(); '
+              'the Scheduler plugin model (PModel.v) has no events of OTHER plugins in the schedule and no plugin-less restart (histories with them are '
+              'judged on the implementation by the direct oracle only; the id collision they exposed, C18.F25, is repaired), abstracts the scheduler to a '
+              'name-unique bag, assumes scheduled commands do not themselves call scheduler commands, and does not model a crash between an event firing '
+              'and the next flush of Scheduler.pickle (at-least-once across crashes), nor a failing pickle.dump (would replace the pickle by a truncated file); '
+              'liveness at plugin level (a listed request is scheduled and fires) is checked by the oracle, not proved -- proved are at-most-once, '
+              'no double scheduling, live closures, listed ids.')
 TECHNIQUE = 'Coq proof (state invariant preserved by every primitive, induction over action terms / loop fuel / histories) + regenerated table + extracted-model differential correspondence'
 EXPLANATION = 'C18 (scheduler + Scheduler plugin across reload/restart: coq/C18/PModel.v, PProofs.v): model of src/schedule.py in coq/C18/Model.v; invariant proofs in coq/C18/Lemmas.v; theorems in coq/C18/Props.v'
 
@@ -173,7 +182,13 @@ class Tracker:
         for k in [k for k, v in self.byname.items() if v == reg]:
             del self.byname[k]
 
-    def run_done(self, clock):
+    def run_done(self, clock, loaded=True, suppressed=False):
+        if suppressed and loaded:
+            # the scheduling user is ignored and the plugin checks that: due one-shots fired, their effect was suppressed
+            for c in self.cmds.values():
+                if c['kind'] == 'single' and not c['removed'] and not c['runs'] and c['due'] < clock:
+                    c['removed'] = True      # must never run later
+                    c['suppressed'] = True
         for reg, p in sorted(self.pending.items()):
             if p['due'] < clock:
                 self.fail('event reg %d due %d has not run when run() returned at clock %d' % (reg, p['due'], clock))
@@ -542,13 +557,27 @@ class PTracker:
     def __init__(self):
         self.cmds = {}
         self.epoch = 0
+        self.process = 0
         self.failures = []      # (focus, text)
 
     def fail(self, text, focus='other'):
         self.failures.append((focus, text))
 
-    def added(self, cmd, kind, due):
-        self.cmds[cmd] = dict(kind=kind, due=due, removed=False, runs=[], reloaded=False, run_ids=[])
+    def added(self, cmd, kind, due, told=None):
+        # told: the id the user was given ('Event #3 added.'); it must keep working until the bot restarts
+        self.cmds[cmd] = dict(kind=kind, due=due, removed=False, runs=[], reloaded=False, run_ids=[], told=told,
+                              process=self.process, refused=False)
+
+    def process_died(self):
+        for c in self.cmds.values():
+            if c['kind'] == 'foreign' and not c['runs']:
+                c['removed'] = True          # gone with the process, legitimately
+
+    def remove_refused(self, key):
+        """`scheduler remove <key>` answered 'Invalid event id'"""
+        for cmd, c in self.cmds.items():
+            if c['told'] == key and c['process'] == self.process and not c['removed'] and not (c['kind'] == 'single' and c['runs']):
+                c['refused'] = True
 
     def reloaded(self):
         for c in self.cmds.values():
@@ -562,7 +591,9 @@ class PTracker:
             return
         if c['removed']:
             self.fail('event C%d ran at clock %d although it was removed' % (cmd, clock))
-        if c['kind'] == 'single':
+        if c['refused']:
+            self.fail('event C%d ran at clock %d although `scheduler remove %s` (the id it was added under) had been asked; the answer was an error' % (cmd, clock, c['told']))
+        if c['kind'] in ('single', 'foreign'):
             if clock <= c['due'] - 1 or clock < c['due']:
                 self.fail('event C%d due %d ran early at clock %d' % (cmd, c['due'], clock))
             if c['runs']:
@@ -574,9 +605,15 @@ class PTracker:
         c['runs'].append((clock, self.epoch))
         c['run_ids'].append(runid)
 
-    def run_done(self, clock):
+    def run_done(self, clock, loaded=True, suppressed=False):
+        if suppressed and loaded:
+            # the scheduling user is ignored and the plugin checks that: due one-shots fired, their effect was suppressed
+            for c in self.cmds.values():
+                if c['kind'] == 'single' and not c['removed'] and not c['runs'] and c['due'] < clock:
+                    c['removed'] = True      # must never run later
+                    c['suppressed'] = True
         for cmd, c in sorted(self.cmds.items()):
-            if c['kind'] == 'single' and not c['removed'] and not c['runs'] and c['due'] < clock:
+            if c['kind'] in (('single', 'foreign') if loaded else ('foreign',)) and not c['removed'] and not c['runs'] and c['due'] < clock:
                 self.fail('event C%d due %d has not run when run() returned at clock %d' % (cmd, c['due'], clock))
 
 
@@ -605,8 +642,10 @@ def run_plugin(ops):
         os.remove(mod.plugin.filename)
     except OSError:
         pass
+    checks_ignored = hasattr(mod.Class, '_isIgnored')
     plug = mod.Class(irc)
     ncmd = [0]
+    ignored = [False]
     snaps = []
 
     def drain():
@@ -621,7 +660,7 @@ def run_plugin(ops):
 
     def snap():
         d = []
-        for k, ev in plug.events.items():
+        for k, ev in (plug.events.items() if plug is not None else []):
             key = [0, int(k)] if k.isdigit() else [1, int(k[1:])]
             c = int(ev['command'].split('C')[1])
             if ev['type'] == 'single':
@@ -635,7 +674,10 @@ def run_plugin(ops):
             k = o[0]
             st = _StubIrc()
             try:
-                if k in ('padd', 'premind'):
+                if plug is None and k in ('padd', 'premind', 'prepeat', 'premove', 'reload', 'unload'):
+                    if k in ('padd', 'premind', 'prepeat'):
+                        ncmd[0] += 1                       # the model numbers requests by position
+                elif k in ('padd', 'premind'):
                     c = ncmd[0]
                     ncmd[0] += 1
                     if k == 'padd':
@@ -643,7 +685,7 @@ def run_plugin(ops):
                     else:
                         plug.remind(st, msg, [str(o[1]), 'C%d' % c])
                     if 'ok' in st.out:
-                        tr.added(c, 'single', clock[0] + o[1])
+                        tr.added(c, 'single', clock[0] + o[1], told=max(plug.events, key=lambda k: int(k) if k.isdigit() else -1))
                 elif k == 'prepeat':
                     c = ncmd[0]
                     ncmd[0] += 1
@@ -651,23 +693,66 @@ def run_plugin(ops):
                     had = name in plug.events
                     plug.repeat(st, msg, (['--delay', str(o[3])] if o[3] else []) + [name, str(o[2]), 'echo C%d' % c])
                     if not had and name in plug.events:
-                        tr.added(c, 'repeat', clock[0] + o[3])
+                        tr.added(c, 'repeat', clock[0] + o[3], told=name)
                 elif k == 'premove':
                     key = str(o[1][1]) if o[1][0] == 'a' else 'r%d' % o[1][1]
                     listed = plug.events.get(key)
                     plug.remove(st, msg, [key])
                     if listed is not None and 'ok' in st.out:
                         tr.cmds[int(listed['command'].split('C')[1])]['removed'] = True
+                    elif 'error' in st.out:
+                        tr.remove_refused(key)
+                elif k == 'ignore':
+                    # the user who scheduled the events is (un)ignored now: ircdb.checkIgnored(msg.prefix, msg.channel)
+                    import supybot.ircdb as ircdb
+                    if o[1]:
+                        ircdb.ignores.add('nick!u@h')
+                    elif 'nick!u@h' in [str(h) for h in ircdb.ignores.hostmasks]:
+                        ircdb.ignores.remove('nick!u@h')
+                    ignored[0] = bool(o[1])
+                elif k == 'foreign':
+                    # another plugin (Channel kban expiry, AutoMode, Admin rejoin, Ctcp ...) schedules an event of its own
+                    c = ncmd[0]
+                    ncmd[0] += 1
+
+                    def g(c=c):
+                        log.append([clock[0], c])
+                        tr.fired(c, clock[0], runid[0])
+                    S.addEvent(g, clock[0] + o[1])
+                    tr.added(c, 'foreign', clock[0] + o[1])
+                elif k == 'newproc':
+                    # the bot restarts and the Scheduler plugin is NOT loaded at startup (its pickle stays on disk)
+                    if plug is not None:
+                        plug.die()
+                        plug = None
+                    S.reset()
+                    S.counter = 0
+                    tr.epoch += 1
+                    tr.process += 1
+                    tr.process_died()
+                elif plug is None and k not in ('load', 'adv', 'run', 'restart'):
+                    pass                                   # the plugin is unloaded: its commands do not exist
+                elif k == 'unload':
+                    plug.die()
+                    tr.reloaded()
+                    tr.epoch += 1
+                    plug = None
+                elif k == 'load':
+                    if plug is None:
+                        plug = mod.Class(irc)
                 elif k == 'reload':
                     plug.die()
                     tr.reloaded()
                     tr.epoch += 1
                     plug = mod.Class(irc)
                 elif k == 'restart':
-                    plug.die()
+                    if plug is not None:
+                        plug.die()
                     S.reset()
                     S.counter = 0
                     tr.epoch += 1
+                    tr.process += 1
+                    tr.process_died()
                     plug = mod.Class(irc)
                 elif k == 'adv':
                     clock[0] += o[1]
@@ -675,7 +760,7 @@ def run_plugin(ops):
                     runid[0] += 1
                     S.run()
                     drain()
-                    tr.run_done(clock[0])
+                    tr.run_done(clock[0], plug is not None, ignored[0] and checks_ignored)   # while the plugin is unloaded its own events wait
             except Exception as e:
                 if type(e).__name__ not in ('Error', 'AssertionError'):
                     tr.fail('%s raised %s: %s' % (k, type(e).__name__, e))
@@ -683,11 +768,18 @@ def run_plugin(ops):
             snap()
     finally:
         try:
-            plug.die()
+            if plug is not None:
+                plug.die()
         except Exception:
             pass
         S.reset()
         S.counter = 0
+        try:
+            import supybot.ircdb as ircdb
+            if 'nick!u@h' in [str(h) for h in ircdb.ignores.hostmasks]:
+                ircdb.ignores.remove('nick!u@h')
+        except Exception:
+            pass
         sm.time, mod.plugin.time = saved[0], saved[1]
         if saved[2] is None:
             del mod.Class.Proxy
@@ -706,14 +798,16 @@ def w_pop(o):
         return [2, o[1], o[2], o[3]]
     if k == 'premove':
         return [3, w_name(o[1])]
-    return {'reload': [4], 'restart': [5], 'run': [7]}.get(k) or [6, o[1]]
+    if k == 'ignore':
+        return [10, 1 if o[1] else 0]
+    return {'reload': [4], 'restart': [5], 'run': [7], 'unload': [8], 'load': [9]}.get(k) or [6, o[1]]
 
 
 def d_psnap(v):
     return [[list(x) for x in v[0]], sorted(v[1]), v[2], v[3], sorted(list(x) for x in v[4])]
 
 
-def g_plugin_history(rng):
+def g_plugin_history(rng, foreign=False):
     ops = []
     for _ in range(rng.randint(3, 12)):
         r = rng.random()
@@ -725,10 +819,18 @@ def g_plugin_history(rng):
             ops.append(['prepeat', rng.choice([0, 0, 1]), rng.choice([2, 3, 5, 7, 12]), rng.choice([0, 0, 2, 6])])
         elif r < 0.52:
             ops.append(['premove', ['a', rng.choice([0, 0, 1, 2, 3])] if rng.random() < 0.7 else ['n', rng.choice([0, 1])]])
-        elif r < 0.66:
+        elif r < 0.62:
             ops.append(['reload'])
-        elif r < 0.72:
+        elif r < 0.68:
+            ops += [['unload']] + [rng.choice([['adv', rng.choice([1, 3, 6, 12])], ['run']]) for _ in range(rng.randint(0, 3))] + [['load']]
+        elif r < 0.73:
             ops.append(['restart'])
+        elif not foreign and r < 0.77:
+            ops.append(['ignore', rng.choice([1, 1, 0])])
+        elif foreign and r < 0.80:
+            ops.append(['foreign', rng.choice([1, 3, 6, 15, 40])])
+        elif foreign and r < 0.83:
+            ops += [['newproc']] + [rng.choice([['foreign', rng.choice([2, 9, 40])], ['adv', 2], ['run']]) for _ in range(rng.randint(0, 3))] + [['load']]
         elif r < 0.88:
             ops.append(['adv', rng.choice([1, 2, 3, 4, 6, 10])])
         else:
@@ -743,23 +845,29 @@ PCORPUS = [
     [['padd', 3], ['premind', 4], ['prepeat', 0, 5, 0], ['reload'], ['reload'], ['adv', 6], ['run'], ['adv', 6], ['run']],
     [['prepeat', 0, 3, 2], ['adv', 3], ['run'], ['reload'], ['adv', 4], ['run'], ['premove', ['n', 0]], ['adv', 9], ['run']],
     [['padd', 9], ['padd', 2], ['adv', 3], ['run'], ['restart'], ['padd', 1], ['adv', 7], ['run']],
-    # finding C18.F24: reload, the event fires (old closure, stale entry in the new instance), restart: it runs again
+    # unload, the event comes due while the plugin is away, load: it must run once (after the load), not twice
+    [['padd', 2], ['premind', 3], ['prepeat', 0, 4, 0], ['unload'], ['adv', 5], ['run'], ['load'], ['adv', 1], ['run'], ['adv', 9], ['run']],
+    # witnesses of C18.F24 (fixed): reload, the event fires, reload / restart: it must not run again
     [['padd', 2], ['reload'], ['adv', 3], ['run'], ['restart'], ['adv', 1], ['run']],
+    [['padd', 2], ['reload'], ['adv', 3], ['run'], ['reload'], ['adv', 1], ['run']],
+    [['padd', 2], ['unload'], ['adv', 5], ['run'], ['load'], ['adv', 1], ['run']],
+    # the scheduling user is ignored when the events come due: they fire (leave the list), their effect is suppressed,
+    # and they do not run later when the ignore is lifted; a repeat goes on and runs again afterwards
+    [['padd', 2], ['premind', 3], ['prepeat', 0, 4, 0], ['ignore', 1], ['adv', 5], ['run'], ['ignore', 0], ['adv', 5], ['run'], ['reload'], ['adv', 9], ['run']],
+    # witness of C18.F25 (fixed): the bot restarts without the plugin, another plugin's event gets id 0, the plugin is
+    # loaded: its own pickled event #0 must be scheduled (under a new id) and `scheduler remove 0` must not hit the other one
+    [['padd', 50], ['newproc'], ['foreign', 100], ['load'], ['premove', ['a', 0]], ['adv', 200], ['run']],
+    [['foreign', 9], ['padd', 5], ['reload'], ['foreign', 2], ['unload'], ['adv', 10], ['run'], ['load'], ['run']],
 ]
 
 
 # ---------------------------------------------------------------- check
-def _reload_then_restart(pops):
-    """a reload, later another reload or a restart"""
-    kinds = [o[0] for o in pops if o[0] in ('reload', 'restart')]
-    return 'reload' in kinds and len(kinds[kinds.index('reload'):]) >= 2
-
-
-# C18.F17 (rescheduleEvent dropped args/kwargs) is fixed; its witnesses lead CORPUS.
-# C18.F24: after an in-process reload of the Scheduler plugin a one-shot event fires through the closure of the dead
-# instance, which deletes it from the dead instance's dict only: it stays in the new instance's dict and pickle and is
-# scheduled -- and run -- again by the next reload or restart.
-CLASSES = {'stale_after_reload': lambda inp: inp.get('focus') == 'stale-after-reload' and _reload_then_restart(inp.get('pops', []))}
+# C18.F26 (known): addEvent(f, float('nan')): once the NaN entry reaches the top of the heap, `self.schedule[0][0] < time.time()`
+# is False for ever and no other event runs.  No bundled caller can produce a NaN due time.
+# fixed: C18.F17 (rescheduleEvent dropped args/kwargs) and C18.F24 (after a reload a fired one-shot event stayed
+# in the new instance's dict and was run again by the next reload / restart; after unload ... load it ran twice) are
+# fixed; their witnesses lead CORPUS / PCORPUS.
+CLASSES = {'nan_due': lambda inp: inp.get('special') == 'nan-due'}
 
 
 def judge(ctx, ops, impl):
@@ -812,8 +920,12 @@ def run(ctx):
         if mo is not None:
             compare(ctx, ops, impl, mo)
     ctx.notes.append('heappop oracle: every real pop was checked to be of minimal time by the model (obad flag)')
+    ctx.case('special-nan', {'special': 'nan-due'}, nontrivial=False)
+    d = run_special({'special': 'nan-due'})
+    if d:
+        ctx.fail({'special': 'nan-due'}, d)
     # ---- the Scheduler plugin on top: add / remind / repeat / remove / reload / restart / time passing
-    pcases = [(ops, 'plugin-corpus') for ops in PCORPUS] + [(g_plugin_history(rng), 'plugin') for _ in range(ctx.n(1200))]
+    pcases = [(ops, 'plugin-corpus') for ops in PCORPUS] + [(g_plugin_history(rng), 'plugin') for _ in range(ctx.n(900))] + [(g_plugin_history(rng, True), 'plugin-foreign') for _ in range(ctx.n(500))]
     pdone = []
     for pops, kind in pcases:
         impl = run_plugin(pops)
@@ -824,12 +936,9 @@ def run(ctx):
         for focus, text in impl['failures']:
             if focus not in seen:
                 seen.add(focus)
-                if focus == 'stale-after-reload':
-                    ctx.known_reported = getattr(ctx, 'known_reported', 0) + 1
-                    if ctx.known_reported > 200:
-                        continue
                 ctx.fail({'pops': pops, 'focus': focus}, text)
         pdone.append((pops, impl))
+    pdone = [(pops, impl) for pops, impl in pdone if not any(o[0] in ('foreign', 'newproc') for o in pops)]
     pouts = ctx.model([[[], [w_pop(o) for o in pops]] for pops, _ in pdone])
     for (pops, impl), mo in zip(pdone, pouts):
         if mo is None:
@@ -852,7 +961,36 @@ def has_ties(impl):
     return False
 
 
+def run_special(inp):
+    """witnesses that need values outside the model's domain (the model's due times are integers)"""
+    if inp.get('special') == 'nan-due':
+        boot.boot()
+        import supybot.schedule as sm
+        clock = [100.0]
+        saved = sm.time
+        sm.time = types.SimpleNamespace(time=lambda: clock[0], sleep=lambda s: None)
+        try:
+            S = sm.Schedule()
+            ran = []
+            S.addEvent(lambda: ran.append('a'), 95.0)
+            S.addEvent(lambda: ran.append('nan'), float('nan'))
+            S.addEvent(lambda: ran.append('b'), 97.0)
+            S.run()
+            S.addEvent(lambda: ran.append('c'), 99.0)
+            S.run()
+        finally:
+            sm.time = saved
+            import supybot.drivers as drivers
+            drivers._drivers['Schedule'] = sm.schedule
+        missing = [x for x in ('a', 'b', 'c') if x not in ran]
+        if missing:
+            return 'events %s are overdue and were not run by two run() calls: the entry with due time NaN sits on top of the heap' % missing
+    return None
+
+
 def replay(ctx, inp):
+    if 'special' in inp:
+        return run_special(inp)
     if 'pops' in inp:
         want = inp.get('focus')
         for focus, text in run_plugin(inp['pops'])['failures']:
@@ -866,6 +1004,8 @@ def replay(ctx, inp):
 
 
 def shrink(ctx, inp):
+    if 'special' in inp:
+        return inp
     if 'pops' in inp:
         focus = inp.get('focus')
         small = shrink_seq(inp['pops'], lambda ops: replay(ctx, {'pops': ops, 'focus': focus}) is not None)
